@@ -16,7 +16,7 @@ import (
 )
 
 func init() {
-	register("C08", c08Range, c08Len, c08Refs, c08Reuse, c08Lock, c08Head, c08Precond, c08Stale, c08Thread)
+	register("C08", c08Range, c08Len, c08Refs, c08Reuse, c08Lock, c08Head, c08Precond, c08Stale, c08Thread, c08OpenErr)
 }
 
 // C08.range — postcondition of ParseByteRange under contentLength ≥ 0.
@@ -237,6 +237,22 @@ func c08Len(e *Env) {
 			if len(x.Lhs) == 1 && len(x.Rhs) == 1 && x.Tok == token.ASSIGN && usedVar(info, x.Lhs[0]) == clVar {
 				if refersTo(info, x.Rhs[0], sVar) || refersTo(info, x.Rhs[0], eVar) {
 					lenAssign = x
+				} else if tv := usedVar(info, x.Rhs[0]); tv != nil && !tv.IsField() {
+					// through a temporary defined once from the parsed pair (`n := endPos - startPos + 1`)
+					var defs []*ast.AssignStmt
+					ast.Inspect(hr.Decl.Body, func(m ast.Node) bool {
+						if d, ok := m.(*ast.AssignStmt); ok && len(d.Lhs) == 1 && len(d.Rhs) == 1 && usedVar(info, d.Lhs[0]) == tv {
+							defs = append(defs, d)
+						} else if ok {
+							if id, isID := d.Lhs[0].(*ast.Ident); isID && len(d.Lhs) == 1 && len(d.Rhs) == 1 && info.Defs[id] == types.Object(tv) {
+								defs = append(defs, d)
+							}
+						}
+						return true
+					})
+					if len(defs) == 1 && (refersTo(info, defs[0].Rhs[0], sVar) || refersTo(info, defs[0].Rhs[0], eVar)) {
+						lenAssign = defs[0]
+					}
 				}
 			}
 		}
